@@ -7,26 +7,46 @@ PROP = {
     "level": "proof",
     "engine": "E2-indexing",
     "level_text": "Proof: IndexMerger::write is modelled on logical dumps of segments (alive bits, store, field norms, fast values, term dictionary "
-                  "with doc/tf/positions). Proved for ANY number of sources and ANY alive sets (induction over sources): the stacked doc-id mapping is a "
-                  "bijection between new ids and live old addresses, order preserving, and the old->new table is its inverse (C04_mapping_bijective); "
-                  "the mechanism (table fill, per-term remap with the doc_freq filter, gather of norms/columns, store stacking vs alive iteration) "
-                  "equals the specification 'live documents of the sources in source order, postings renumbered' as whole records, including "
-                  "all-deleted sources and the empty result (C04_write_is_spec, C04_content_preserved, C04_stacking_irrelevant). "
-                  "Tie: translation validation of every merge the harness provokes (1-6 sources, with/without deletes, many/few store blocks): "
-                  "merge_model(source dumps) = output dump and spec(source dumps) = output dump, both evaluated inside Coq.",
-    "level_note": "Trusted: Coq kernel + vm_compute; pin.py; the harness' dump of a SegmentReader through the public API. "
-                  "Not modelled: the codecs behind the dumps (C07/C08/C09/C15), TermMerger's heap (represented by its specification: sorted union of keys, "
-                  "sources in ordinal order), the compressor test of write_storable_fields, real merge-thread timing. "
+                  "with doc/tf/positions). Proved for ANY number of sources and ANY alive sets (induction over sources / over the mapping): "
+                  "the stacked doc-id mapping is a bijection between new ids and live old addresses, order preserving, and the old->new table is "
+                  "its inverse (C04_mapping_bijective); the mechanism (table fill, per-term remap with the doc_freq filter, gather of norms/columns, "
+                  "store stacking vs alive iteration) equals the specification 'live documents of the sources in source order, postings renumbered' as "
+                  "whole records, including all-deleted sources and the empty result (C04_write_is_spec, C04_content_preserved, C04_stacking_irrelevant); "
+                  "sorted index: every k-way merge is an interleaving (C04_kmerge_is_interleaving), every interleaving is a bijection that keeps each "
+                  "source's order with the table as inverse (C04_shuffled_mapping_bijective, C04_shuffled_order_preserving) and the sequential "
+                  "per-reader store iterators meet exactly the mapped documents (C04_store_iteration_aligned). Schedule side (state machine of "
+                  "start_merge/end_merge with delete queue, cursors, registers, target opstamp, rollback epochs): starting a merge is invisible "
+                  "(C04_start_merge_transparent), a merge whose sources are gone or whose writer was rolled back is discarded without effect "
+                  "(C04_end_merge_discarded), and for every queue and committed opstamp the reconciled merged entry holds exactly the documents of its "
+                  "sources advanced to that opstamp (C04_end_merge_reconciles, C04_advance_composes). PARTIAL: the induction over whole histories "
+                  "('inserting StartMerge/EndMerge anywhere does not change what a commit publishes') is not closed as one theorem; it is covered by the "
+                  "step theorems above plus gated schedules on the implementation. The posting lists of the shuffled case are tied (tie_shuffled) but have "
+                  "no list-level theorem. Known finding F0401 (explicit merge of uncommitted segments with different delete cursors): witness theorem "
+                  "C04_explicit_uncommitted_merge_refuted, classifier f0401_class. "
+                  "Tie: translation validation of every merge the harness provokes (1-6 sources, committed and uncommitted, with/without deletes, many/few "
+                  "store blocks, sorted index asc/desc with shuffled mappings): model(source dumps) = output dump and spec(source dumps) = output dump inside Coq; "
+                  "schedules with the merge thread gated at its k-th storage operation while delete+commit / rollback / delete_all / adds / GC / a second merge run: "
+                  "published ids = state machine = sequential replay.",
+    "level_note": "Trusted: Coq kernel + vm_compute; pin.py; the harness' dump of a SegmentReader through the public API and its recovery of the "
+                  "shuffled mapping from the unique id column. Not modelled: the codecs behind the dumps (C07/C08/C09/C15), TermMerger's heap (represented by "
+                  "its specification: sorted union of keys, sources in ordinal order), the compressor test of write_storable_fields, the sort comparison "
+                  "itself (C17), delete_all_documents in the Coq state machine (C02/F2; checked on the implementation against the replay only), real "
+                  "merge-thread timing beyond the gated points. All-deleted sources and the empty result are covered by the theorems and Coq examples but "
+                  "are not reachable by explicit merges of committed segments (the commit drops empty segments), so the tie does not exercise them. "
                   "No axioms (Print Assumptions: closed under the global context).",
-    "technique": "Coq proof (list induction over sources / mapping) + translation validation of real merges evaluated by vm_compute",
-    "rule": "one case group per merge performed by IndexWriter::merge; non-trivial = >= 2 sources, >= 1 deleted document, >= 1 term occurring in live "
-            "documents of >= 2 sources; distinct by hash of the Gallina case term",
+    "technique": "Coq proof (list induction over sources / mappings / interleavings; state-machine step lemmas) + translation validation of real merges "
+                 "and gated schedules evaluated by vm_compute",
+    "rule": "merge cases: one group per IndexWriter::merge performed; non-trivial = >= 2 sources, >= 1 deleted document, >= 1 term occurring in live "
+            "documents of >= 2 sources (and a genuinely shuffled mapping for sorted-index cases); schedule cases: non-trivial = the merge thread was "
+            "blocked inside the merge while the main thread ran its operations; distinct by hash of the Gallina case term",
     "trusted_base": COMMON_TB + ["logical dump of a SegmentReader taken by the harness through the public API (store get/iter, fieldnorm readers, "
-                                 "dynamic column handles, term streams + SegmentPostings)"],
+                                 "dynamic column handles, term streams + SegmentPostings)",
+                                 "gating of merge threads through the VerifDirectory hook (thread name merge_thread_*)"],
     "assumptions": ["a SegmentReader returns what the segment files contain (codecs are the subject of C07/C08/C09/C15)",
-                    "the doc-store compressor is the same for all segments of an index"],
+                    "the doc-store compressor is the same for all segments of an index",
+                    "single producer thread (opstamps increase in call order)"],
 }
 
 ENGINE = {"name": "E2-indexing", "path": "coq/Indexing", "serves_properties": ["C04"],
-          "kind_free_text": "Gallina models + Coq proofs of the merge mechanism (doc-id mapping, remap of postings/columns/store, merge schedule); "
-                            "tie: harness/src/bin/c04.rs"}
+          "kind_free_text": "Gallina models + Coq proofs of the merge mechanism (doc-id mapping, remap of postings/columns/store, k-way merge, "
+                            "start_merge/end_merge state machine); tie: harness/src/bin/c04.rs"}
